@@ -78,18 +78,76 @@ Proof.
   unfold hdr_strings. repeat rewrite app_assoc. apply last_last.
 Qed.
 
-(* declared = actual: if nothing that is printed contains a newline, the text consists of exactly
-   N - 1 header lines (the last one being the names line) followed by the data rows *)
+Lemma has_char_app c a b : has_char c (a ++ b) = has_char c a || has_char c b.
+Proof. unfold has_char. apply existsb_app. Qed.
+
+Lemma replace_removes a b s : a <> b -> has_char a (replace_char a b s) = false.
+Proof.
+  intros H. induction s as [|x t IH]; [reflexivity|]. cbn [replace_char map has_char existsb].
+  fold (replace_char a b t). fold (has_char a (replace_char a b t)). rewrite IH, orb_false_r.
+  destruct (Z.eqb_spec x a) as [E|E]; apply Z.eqb_neq; congruence.
+Qed.
+
+Lemma replace_keeps_absent c a b s : c <> b -> has_char c s = false -> has_char c (replace_char a b s) = false.
+Proof.
+  intros Hb. induction s as [|x t IH]; [reflexivity|]. cbn [replace_char map has_char existsb].
+  intros H. apply orb_false_iff in H as [H1 H2]. fold (replace_char a b t). fold (has_char c (replace_char a b t)).
+  rewrite (IH H2), orb_false_r. destruct (x =? a); [apply Z.eqb_neq; exact Hb|exact H1].
+Qed.
+
+(* str(value) with line breaks replaced: never a newline, whatever the value *)
+Lemma one_line_no_nl v : no_nl (one_line v) = true.
+Proof.
+  unfold no_nl, one_line. apply negb_true_iff. apply replace_keeps_absent; [discriminate|].
+  apply replace_removes. discriminate.
+Qed.
+
+(* the header fields other than attribute values *)
+Definition hdr_other (f : file) (ind sd : str) : list str :=
+  let deps := depvars ind f in
+  let a := f_attrs f in
+  [ attr_or "PI_NAME" "Unknown" a; attr_or "ORGANIZATION_NAME" "Unknown" a;
+    attr_or "SOURCE_DESCRIPTION" "Unknown" a; attr_or "MISSION_NAME" "Unknown" a;
+    attr_or "VOLUME_INFO" "1, 1" a; sd ++ [cSP] ++ attr_or "WDATE" "2000, 01, 01" a;
+    attr_or "TIME_INTERVAL" "0" a; indep_line f ind; zstr (Z.of_nat (length deps));
+    join sep (map (fun _ => s2z "1") deps); join sep (map code_str deps) ]
+  ++ map (fun v => join sep [v_name v; units_str v]) deps
+  ++ [ s2z "0"; zstr (Z.of_nat (length (myattrs f))) ]
+  ++ map fst (myattrs f)
+  ++ [ join sep (ind :: map v_name deps) ].
+
+Lemma attr_lines_no_nl my :
+  forallb no_nl (map fst my) = true ->
+  forallb no_nl (map (fun kv : str * str => fst kv ++ [cCOLON; cSP] ++ one_line (snd kv)) my) = true.
+Proof.
+  induction my as [|kv t IH]; cbn [map forallb]; intros H; [reflexivity|].
+  apply andb_true_iff in H as [H1 H2]. rewrite (IH H2), andb_true_r.
+  unfold no_nl in *. apply negb_true_iff in H1. apply negb_true_iff.
+  rewrite !has_char_app, H1. cbn [orb]. pose proof (one_line_no_nl (snd kv)) as Q.
+  unfold no_nl in Q. apply negb_true_iff in Q. rewrite Q. reflexivity.
+Qed.
+
+Lemma hdr_no_nl f ind sd : forallb no_nl (hdr_other f ind sd) = true -> forallb no_nl (hdr_strings f ind sd) = true.
+Proof.
+  unfold hdr_other, hdr_strings. rewrite !forallb_app. intros H.
+  apply andb_true_iff in H as [A H]. apply andb_true_iff in H as [B H].
+  apply andb_true_iff in H as [C0 H]. apply andb_true_iff in H as [D0 E].
+  rewrite A, B, C0. cbn [andb]. apply andb_true_iff; split; [exact (attr_lines_no_nl _ D0)|exact E].
+Qed.
+
+(* declared = actual, for ANY attribute values: if no other printed field (names, units, the fixed lines,
+   attribute keys) contains a newline, the text consists of exactly N - 1 header lines (the last one being
+   the names line) followed by the data rows *)
 Lemma header_count_exact f n ls ind sd :
   impl_write f = Some (n, ls) ->
   indep_name f = Some ind -> get_attr (s2z "SDATE") (f_attrs f) = Some sd ->
-  forallb no_nl (hdr_strings f ind sd) = true ->
+  forallb no_nl (hdr_other f ind sd) = true ->
   exists rows, ls = map PT (hdr_strings f ind sd) ++ map PR rows
     /\ Z.of_nat (length (hdr_strings f ind sd)) + 1 = n
     /\ n = Z.of_nat (length (myattrs f)) + Z.of_nat (length (depvars ind f)) + 15
     /\ last (hdr_strings f ind sd) [] = join sep (ind :: map v_name (depvars ind f)).
 Proof.
-  unfold impl_write; intros W Hi Hs Hn. rewrite Hi, Hs in W.
+  unfold impl_write; intros W Hi Hs Hn0. pose proof (hdr_no_nl _ _ _ Hn0) as Hn. rewrite Hi, Hs in W.
   destruct (find_var ind f) as [iv|]; [|discriminate]. cbv zeta in W.
   set (rows := transpose_rows (length (v_cells iv)) (filled iv :: map filled (depvars ind f))) in W.
   assert (En : n = header_count f ind) by congruence.
@@ -269,42 +327,53 @@ Proof.
 Qed.
 
 (* ------------------------------------------------------------------ one cell through write + read *)
-Definition cell_rt (code fill : dec) (c : option dec) : cell :=
-  cell_apply (D 1 0) code (CV (fmt6e (match c with Some d => d | None => fill end))).
+(* the writer fills a masked cell with the variable's code; the reader compares with [rcode] (the same code
+   for dependent variables) *)
+Definition cell_rt (rcode wcode : dec) (c : option dec) : cell :=
+  cell_apply (D 1 0) rcode (CV (fmt6e (match c with Some d => d | None => wcode end))).
 
 Lemma dec_mul_one d : dec_mul d (D 1 0) = d.
 Proof. destruct d as [m e]; unfold dec_mul; cbn [dm de]. f_equal; lia. Qed.
 
-Lemma cell_rt_masked code fill :
-  dec_eqb (fmt6e fill) code = true -> cell_rt code fill None = CM.
+Lemma cell_rt_masked rcode wcode :
+  dec_eqb (fmt6e wcode) rcode = true -> cell_rt rcode wcode None = CM.
 Proof. unfold cell_rt, cell_apply; intros ->; reflexivity. Qed.
 
-Lemma cell_rt_value code fill d :
-  dec_eqb (fmt6e d) code = false -> cell_rt code fill (Some d) = CV (fmt6e d).
+Lemma cell_rt_value rcode wcode d :
+  dec_eqb (fmt6e d) rcode = false -> cell_rt rcode wcode (Some d) = CV (fmt6e d).
 Proof. unfold cell_rt, cell_apply; intros ->. rewrite dec_mul_one. reflexivity. Qed.
 
-Lemma cell_rt_spec code fill c :
-  dec_eqb (fmt6e fill) code = true ->
-  (forall d, c = Some d -> dec_eqb (fmt6e d) code = false) ->
-  cell_rt code fill c = spec_cell c.
+Lemma cell_rt_spec rcode wcode c :
+  dec_eqb (fmt6e wcode) rcode = true ->
+  (forall d, c = Some d -> dec_eqb (fmt6e d) rcode = false) ->
+  cell_rt rcode wcode c = spec_cell c.
 Proof.
   intros Hf Hv. destruct c as [d|]; cbn [spec_cell].
   - apply cell_rt_value, Hv; reflexivity.
   - apply cell_rt_masked, Hf.
 Qed.
 
+Lemma dec_eqb_refl d : dec_eqb d d = true.
+Proof. unfold dec_eqb. rewrite Z.min_id. apply Z.eqb_refl. Qed.
+
+(* a code that is itself a 7-digit decimal: whatever the array's fill value was, masks survive *)
+Lemma cell_rt_canon code c :
+  canon7 code = true ->
+  (forall d, c = Some d -> dec_eqb (fmt6e d) code = false) ->
+  cell_rt code code c = spec_cell c.
+Proof.
+  intros Hc Hv. apply cell_rt_spec; [|exact Hv]. rewrite (fmt6e_fixed _ Hc). apply dec_eqb_refl.
+Qed.
+
 (* second cycle on one cell: what was read is written and read back unchanged *)
-Lemma cell_second code c :
+Lemma cell_second code w c :
   canon7 code = true ->
   let back := fun x => match x with CV d => Some d | _ => None end in
-  forall fill, cell_rt code fill c = CM \/ (exists d, cell_rt code fill c = CV d) ->
-  cell_rt code code (back (cell_rt code fill c)) = cell_rt code fill c.
+  cell_rt code code (back (cell_rt code w c)) = cell_rt code w c.
 Proof.
-  intros Hc back fill _. unfold cell_rt at 2 3. unfold cell_apply.
-  destruct (dec_eqb (fmt6e match c with Some d => d | None => fill end) code) eqn:E; cbn [back].
-  - unfold cell_rt, cell_apply. rewrite (fmt6e_fixed _ Hc).
-    assert (R : dec_eqb code code = true) by (unfold dec_eqb; rewrite Z.min_id; apply Z.eqb_refl).
-    rewrite R. reflexivity.
+  intros Hc back. unfold cell_rt at 2 3. unfold cell_apply.
+  destruct (dec_eqb (fmt6e match c with Some d => d | None => w end) code) eqn:E; cbn [back].
+  - unfold cell_rt, cell_apply. rewrite (fmt6e_fixed _ Hc), dec_eqb_refl. reflexivity.
   - rewrite dec_mul_one. unfold cell_rt, cell_apply. rewrite fmt6e_idem, E, dec_mul_one. reflexivity.
 Qed.
 
@@ -454,18 +523,33 @@ Proof.
   rewrite (replace_none _ _ _ H1), (IH H2). reflexivity.
 Qed.
 
-(* auto-detection: with no line starting with 'Level' in the first 100 lines, the decision is taken on
-   the 28th line alone *)
-Lemma detect_long ls l :
-  find is_level_line (firstn 99 ls) = None -> nth_error ls 26 = Some l ->
-  zip_all_eq l100_names (pline_words l) = false -> impl_detect ls = R_ffi1001.
-Proof. unfold impl_detect; intros -> -> ->; reflexivity. Qed.
-
-Lemma detect_short ls :
-  find is_level_line (firstn 99 ls) = None -> (length ls < 27)%nat -> impl_detect ls = R_l100.
+(* auto-detection: the key line is one of the first 99 lines after line 1; if none of them carries the
+   eight L100 column names as its first eight tokens, the l100 reader does not claim the file *)
+Lemma nth_error_firstn_In {A} (l : list A) n k x : (n < k)%nat -> nth_error l n = Some x -> In x (firstn k l).
 Proof.
-  unfold impl_detect; intros -> H. assert (H' : nth_error ls 26 = None) by (apply nth_error_None; lia).
-  rewrite H'. reflexivity.
+  revert n k; induction l as [|a t IH]; intros n k Hk H; [destruct n; discriminate|].
+  destruct k; [lia|]. destruct n; cbn in *.
+  - left. congruence.
+  - right. apply (IH n k); [lia|exact H].
+Qed.
+
+Lemma detect_ffi ls :
+  forallb (fun l => negb (claims l)) (firstn 99 ls) = true -> impl_detect ls = R_ffi1001.
+Proof.
+  intros H. rewrite forallb_forall in H. unfold impl_detect.
+  destruct (find is_level_line (firstn 99 ls)) as [l|] eqn:F.
+  - apply find_some in F as [Hin _]. specialize (H _ Hin). apply negb_true_iff in H. rewrite H. reflexivity.
+  - destruct (nth_error ls 26) as [l|] eqn:N.
+    + assert (Hin : In l (firstn 99 ls)) by (apply (nth_error_firstn_In ls 26 99); [lia|exact N]).
+      specialize (H _ Hin). apply negb_true_iff in H. rewrite H. reflexivity.
+    + (* no 28th line: lines[-2] is '' -> no tokens -> not claimed *)
+      reflexivity.
+Qed.
+
+(* a line with fewer than 8 tokens is never claimed: short files, an independent variable called Level *)
+Lemma few_tokens_not_claimed l : (length (pline_words l) < 8)%nat -> claims l = false.
+Proof.
+  intros H. unfold claims. destruct (Z.leb_spec 8 (Z.of_nat (length (pline_words l)))); [lia|reflexivity].
 Qed.
 
 (* ------------------------------------------------------------------ concrete files (witnesses, non-vacuity) *)
@@ -536,3 +620,82 @@ Definition w_level : file :=
   File [(s2z "SDATE", s2z "2020, 01, 02"); (s2z "WDATE", s2z "2021, 03, 04"); (s2z "INDEPENDENT_VARIABLE", s2z "Level")]
        [Var (s2z "Level") (Some (s2z "Level")) (Some (s2z "-9999")) (D (-9999) 0) (map (fun i => Some (D (Z.of_nat i) 0)) (seq 0 16));
         avar "NO" "ppbv" "-9999" (D (-9999) 0) [Some (D 1 0); None] 16].
+
+(* ------------------------------------------------------------------ the missing-code / scale line *)
+Lemma split_on_cons_other c x s : x <> c ->
+  split_on c (x :: s) = match split_on c s with h :: r => (x :: h) :: r | [] => [[x]] end.
+Proof. intros H. cbn [split_on]. destruct (Z.eqb_spec x c); [contradiction|reflexivity]. Qed.
+
+Lemma split_join toks a :
+  forallb (fun t => negb (has_char cCOMMA t)) (a :: toks) = true ->
+  split_on cCOMMA (join sep (a :: toks)) = a :: map (cons cSP) toks.
+Proof.
+  revert a; induction toks as [|b t IH]; intros a H; cbn [forallb] in H.
+  - rewrite andb_true_r in H. apply negb_true_iff in H. cbn [join map]. apply split_on_none, H.
+  - apply andb_true_iff in H as [Ha Hr]. apply negb_true_iff in Ha.
+    change (join sep (a :: b :: t)) with (a ++ cCOMMA :: cSP :: join sep (b :: t)).
+    rewrite (split_on_app _ _ _ Ha). rewrite split_on_cons_other by discriminate.
+    rewrite (IH b Hr). reflexivity.
+Qed.
+
+Lemma lstrip_nonws s : nonws s = true -> lstrip s = s.
+Proof.
+  destruct s as [|x t]; [reflexivity|]. unfold nonws; cbn [forallb lstrip]. intros H.
+  apply andb_true_iff in H as [H _]. apply negb_true_iff in H. rewrite H. reflexivity.
+Qed.
+
+Lemma nonws_rev s : nonws s = true -> nonws (rev s) = true.
+Proof.
+  unfold nonws. rewrite !forallb_forall. intros H x Hx. apply H. apply in_rev. exact Hx.
+Qed.
+
+Lemma strip_nonws s : nonws s = true -> strip s = s.
+Proof.
+  intros H. unfold strip, rstrip. rewrite (lstrip_nonws _ H), (lstrip_nonws _ (nonws_rev _ H)).
+  apply rev_involutive.
+Qed.
+
+Lemma clean_code_facts t : clean_code t = true ->
+  (exists c, parse_num t = Some c) /\ nonws t = true /\ has_char cCOMMA t = false.
+Proof.
+  unfold clean_code. intros H. apply andb_true_iff in H as [H1 H2]. split; [|split].
+  - destruct (parse_num t) as [c|]; [exists c; reflexivity|discriminate].
+  - unfold nonws. rewrite forallb_forall in *. intros x Hx. specialize (H2 x Hx).
+    apply andb_true_iff in H2 as [H2 _]. exact H2.
+  - unfold has_char. apply not_true_is_false. intros E. apply existsb_exists in E as (x & Hx & Ex).
+    rewrite forallb_forall in H2. specialize (H2 x Hx). apply andb_true_iff in H2 as [_ H2].
+    apply negb_true_iff in H2. apply Z.eqb_eq in Ex. subst x. unfold cCOMMA in *. rewrite Z.eqb_refl in H2. discriminate.
+Qed.
+
+Definition code_of (t : str) : dec := match parse_num t with Some c => c | None => D 0 0 end.
+
+Lemma all_some_map_some {A B} (g : A -> B) (l : list A) : all_some (map (fun x => Some (g x)) l) = Some (map g l).
+Proof. induction l as [|x t IH]; [reflexivity|]. cbn [map all_some]. rewrite IH. reflexivity. Qed.
+
+(* the missing-code line (and the scale line) gives back every token and its value, for ANY number of
+   variables: in particular len(missing) = number of dependent variables, which is what positions
+   every later header line *)
+Lemma eval_list_print toks a :
+  forallb clean_code (a :: toks) = true ->
+  eval_list (join sep (a :: toks)) = Some (map (fun t => (t, code_of t)) (a :: toks)).
+Proof.
+  intros H. unfold eval_list.
+  assert (Hc : forallb (fun t => negb (has_char cCOMMA t)) (a :: toks) = true).
+  { rewrite forallb_forall in *. intros x Hx. destruct (clean_code_facts _ (H x Hx)) as (_ & _ & E). rewrite E. reflexivity. }
+  rewrite (split_join _ _ Hc).
+  assert (E : map (fun t => option_map (pair (strip t)) (parse_num (strip t))) (a :: map (cons cSP) toks)
+              = map (fun t => Some (t, code_of t)) (a :: toks)).
+  { cbn [map]. cbn [forallb] in H. apply andb_true_iff in H as [Ha Ht]. f_equal.
+    - destruct (clean_code_facts _ Ha) as ((c & P) & N & _). rewrite (strip_nonws _ N). unfold code_of. rewrite P. reflexivity.
+    - rewrite map_map. apply map_ext_in. intros t Hin. rewrite forallb_forall in Ht.
+      destruct (clean_code_facts _ (Ht t Hin)) as ((c & P) & N & _).
+      rewrite strip_sp, (strip_nonws _ N). unfold code_of. rewrite P. reflexivity. }
+  rewrite E. apply all_some_map_some.
+Qed.
+
+Lemma eval_list_length toks a :
+  forallb clean_code (a :: toks) = true ->
+  exists ms, eval_list (join sep (a :: toks)) = Some ms /\ length ms = length (a :: toks).
+Proof.
+  intros H. eexists. split; [apply (eval_list_print _ _ H)|]. rewrite map_length. reflexivity.
+Qed.
